@@ -3168,6 +3168,8 @@ def groupby_scan(
         cast_to = None
 
     # TODO: move to aggregate_npg.py
+    if dtype is not None:
+        dtype = np.dtype(dtype)
     if agg.name in ["cumsum", "nancumsum"] and array.dtype.kind in ["i", "u"]:
         # https://numpy.org/doc/stable/reference/generated/numpy.cumsum.html
         # it defaults to the dtype of a, unless a
